@@ -201,6 +201,13 @@ def _eval_pred(lib, b, variant, variants):
                 if c.name == "ne":
                     r = not r
                 env[t["dest"]["local"]] = ("int", 1 if r else 0)
+            elif c and c.body_path in lib.bodies and len(a) == 1 and a[0] is not None and a[0][0] == "variant" and \
+                    lib.bodies[c.body_path].j.get("impl_adt") == "MatchKind" and c.body_path != b.path:
+                # one predicate written in terms of another (`is_leftmost = !self.is_standard()`): fold the callee too
+                r = _eval_pred(lib, lib.bodies[c.body_path], a[0][1], variants)
+                if r is None:
+                    return None
+                env[t["dest"]["local"]] = ("int", 1 if r else 0)
             else:
                 return None
             bi = t["target"]
